@@ -315,6 +315,12 @@ class Canon(object):
         self._subst_consts(fn, cls, m)
         self._stmt_comprehensions(fn)
         self._hoist_ifexp(fn)
+        for _ in range(3):
+            if not self._inline_context_helpers(fn, cls, m):
+                break
+        for _ in range(4):
+            if not self._fuse_generator_loops(fn, cls, m):
+                break
         for _ in range(5):
             if not self._inline_round(fn, cls, m):
                 break
@@ -331,6 +337,222 @@ class Canon(object):
         for n in list(walk_scope(fn)):
             if isinstance(n, (ast.FunctionDef, ast.AsyncFunctionDef)) and n is not fn:
                 self._canon_function(n, cls, m, outer_first=mine)
+
+    # ---------------------------------------------------------------- with self.new_context_helper(..) as v: BODY
+    def _inline_context_helpers(self, fn, cls, m):
+        """`with self.H(a) as v: BODY` where H is a NEW @contextmanager method (name not in the reference vocabulary, defined once)
+        whose single `yield e` ends its function (nothing runs after it except enclosing with-exits / finally blocks) becomes the
+        helper's body with the yield replaced by `v = e; BODY`: what runs before the yield runs before BODY, the context
+        managers / finally blocks around the yield still enclose BODY.  Line numbers: the with statement's."""
+        if cls is None:
+            return False
+        first = self._first(fn, cls)
+        if first is None:
+            return False
+        changed = False
+
+        def helper_of(call):
+            f = call.func
+            if not (isinstance(f, ast.Attribute) and isinstance(f.value, ast.Name) and f.value.id == first) or f.attr in VOCAB_FUNCS:
+                return None
+            fi = cls.find_method(f.attr)
+            if fi is None or sum(1 for c in self.prog.all_classes() if f.attr in c.methods) != 1:
+                return None
+            if [_dotted(d) for d in fi.node.decorator_list] not in (['contextlib.contextmanager'], ['contextmanager']):
+                return None
+            ys = [n for n in walk_scope(fi.node) if isinstance(n, (ast.Yield, ast.YieldFrom))]
+            if len(ys) != 1 or not isinstance(ys[0], ast.Yield) or returns_in(fi.node):
+                return None
+            return fi.node
+
+        def yield_tail(stmts):
+            """path of blocks to the statement `yield e` when it is the LAST statement of every block on the way (through with /
+            try-finally bodies only)"""
+            if not stmts:
+                return None
+            last = stmts[-1]
+            if isinstance(last, ast.Expr) and isinstance(last.value, ast.Yield):
+                return [(stmts, len(stmts) - 1)]
+            if isinstance(last, ast.With):
+                sub = yield_tail(last.body)
+                return None if sub is None else [(stmts, len(stmts) - 1)] + sub
+            if isinstance(last, ast.Try) and not last.handlers and not last.orelse:
+                sub = yield_tail(last.body)
+                return None if sub is None else [(stmts, len(stmts) - 1)] + sub
+            return None
+
+        def rec(stmts):
+            nonlocal changed
+            i = 0
+            while i < len(stmts):
+                st = stmts[i]
+                if isinstance(st, ast.With) and len(st.items) == 1 and isinstance(st.items[0].context_expr, ast.Call):
+                    call = st.items[0].context_expr
+                    callee = helper_of(call)
+                    if callee is not None and not any(isinstance(n, (ast.Yield, ast.YieldFrom)) for n in ast.walk(st)):
+                        b = self._bind(callee, call.func.value, 'method', call, bound_names(fn), True)
+                        body = [copy.deepcopy(x) for x in body_nodoc(callee)]
+                        if b is not None and yield_tail(body) is not None and \
+                                not any(isinstance(n, (ast.Yield, ast.YieldFrom)) for x in body[:-1] for n in ast.walk(x)):
+                            pre, sub = b
+                            body = [sub.visit(x) for x in body]
+                            path = yield_tail(body)
+                            blk, k = path[-1]
+                            y = blk[k].value.value
+                            repl = []
+                            if st.items[0].optional_vars is not None:
+                                repl.append(ast.Assign(targets=[copy.deepcopy(st.items[0].optional_vars)],
+                                                       value=y if y is not None else ast.Constant(value=None), lineno=st.lineno))
+                            elif y is not None:
+                                repl.append(ast.Expr(value=y, lineno=st.lineno))
+                            blk[k:k + 1] = repl + st.body
+                            new = pre + body
+                            for x in new:
+                                _relocate(x, st)
+                            stmts[i:i + 1] = new
+                            self.stats['helpers'] += 1
+                            self.inlined.append((callee.name, fn.name))
+                            changed = True
+                            continue
+                for name in ('body', 'orelse', 'finalbody'):
+                    sub_ = getattr(st, name, None)
+                    if isinstance(sub_, list) and sub_ and isinstance(sub_[0], ast.stmt) and not isinstance(st, (ast.FunctionDef, ast.AsyncFunctionDef, ast.ClassDef)):
+                        rec(sub_)
+                for h in getattr(st, 'handlers', []) or []:
+                    rec(h.body)
+                i += 1
+        rec(fn.body)
+        if changed:
+            ast.fix_missing_locations(fn)
+        return changed
+
+    # ---------------------------------------------------------------- for x in obj.new_generator(..): BODY
+    def _fuse_generator_loops(self, fn, cls, m):
+        """`for x in R.G(args): BODY` where G is a NEW generator method (name not in the reference vocabulary) made of plain
+        statements, loops, ifs and statement-level yields becomes G's body with every `yield e` replaced by `x = e; BODY` and every
+        `yield from it` by `for x in it: BODY` - the loop the generator drives, written out.  BODY must not break / continue the
+        fused loop; the generator must not return early.  G is the receiver's own method (no related class redefines it) or, for
+        another simple receiver, the only definition in the program that accepts the call's arguments."""
+        first = self._first(fn, cls) if cls is not None else None
+        changed = False
+
+        def plain(stmts):
+            for st in stmts:
+                if isinstance(st, ast.Expr):
+                    if isinstance(st.value, (ast.Yield, ast.YieldFrom)):
+                        if any(isinstance(n, (ast.Yield, ast.YieldFrom)) for n in ast.walk(st.value.value) if st.value.value is not None):
+                            return False
+                        continue
+                    if any(isinstance(n, (ast.Yield, ast.YieldFrom)) for n in ast.walk(st)):
+                        return False
+                elif isinstance(st, ast.For) and not st.orelse:
+                    if any(isinstance(n, (ast.Yield, ast.YieldFrom)) for n in ast.walk(st.iter)) or not plain(st.body):
+                        return False
+                elif isinstance(st, ast.If):
+                    if any(isinstance(n, (ast.Yield, ast.YieldFrom)) for n in ast.walk(st.test)) or not plain(st.body) or not plain(st.orelse):
+                        return False
+                elif isinstance(st, (ast.Assign, ast.AugAssign, ast.Pass)):
+                    if any(isinstance(n, (ast.Yield, ast.YieldFrom)) for n in ast.walk(st)):
+                        return False
+                else:
+                    return False
+            return True
+
+        def accepts(fdef, call, method):
+            a = fdef.args
+            if a.vararg or a.kwarg or a.posonlyargs:
+                return False
+            params = [x.arg for x in a.args][1 if method else 0:]
+            if len(call.args) > len(params):
+                return False
+            names = set(params[len(call.args):]) | {x.arg for x in a.kwonlyargs}
+            return all(k.arg in names for k in call.keywords)
+
+        def resolve(call):
+            f = call.func
+            if not isinstance(f, ast.Attribute) or f.attr in VOCAB_FUNCS or (f.attr.startswith('__') and f.attr.endswith('__')):
+                return None
+            if any(isinstance(x, ast.Starred) for x in call.args) or any(k.arg is None for k in call.keywords) or not is_simple(f.value):
+                return None
+            defs = [(c, c.methods[f.attr]) for c in self.prog.all_classes() if f.attr in c.methods]
+            if any(f.attr in mm.functions for mm in self.prog.modules.values()):
+                return None
+            if isinstance(f.value, ast.Name) and first is not None and f.value.id == first:
+                own = cls.find_method(f.attr)
+                if own is None:
+                    return None
+                related = [c for c, d in defs if c is not own.cls and (cls in c.mro() or c in cls.mro())]
+                cands = [] if related else [own]
+            else:
+                cands = [d for c, d in defs if accepts(d.node, call, True)]
+            cands = [d for d in cands if not d.node.decorator_list and is_generator(d.node) and accepts(d.node, call, True)]
+            return cands[0].node if len(cands) == 1 else None
+
+        def leaves_loop(stmts):
+            for st in stmts:
+                if isinstance(st, (ast.Break, ast.Continue)):
+                    return True
+                if isinstance(st, (ast.For, ast.While, ast.FunctionDef, ast.AsyncFunctionDef, ast.ClassDef)):
+                    continue
+                for name in ('body', 'orelse', 'finalbody'):
+                    if leaves_loop(getattr(st, name, None) or []):
+                        return True
+                for h in getattr(st, 'handlers', []) or []:
+                    if leaves_loop(h.body):
+                        return True
+            return False
+
+        def weave(stmts, target, body):
+            out = []
+            for st in stmts:
+                if isinstance(st, ast.Expr) and isinstance(st.value, ast.Yield):
+                    v = st.value.value if st.value.value is not None else ast.Constant(value=None)
+                    out.append(ast.Assign(targets=[copy.deepcopy(target)], value=v, lineno=st.lineno))
+                    out.extend(copy.deepcopy(body))
+                elif isinstance(st, ast.Expr) and isinstance(st.value, ast.YieldFrom):
+                    out.append(ast.For(target=copy.deepcopy(target), iter=st.value.value, body=copy.deepcopy(body), orelse=[], lineno=st.lineno))
+                elif isinstance(st, ast.For):
+                    st.body = weave(st.body, target, body)
+                    out.append(st)
+                elif isinstance(st, ast.If):
+                    st.body = weave(st.body, target, body)
+                    st.orelse = weave(st.orelse, target, body) if st.orelse else []
+                    out.append(st)
+                else:
+                    out.append(st)
+            return out or [ast.Pass()]
+
+        def rec(stmts):
+            nonlocal changed
+            i = 0
+            while i < len(stmts):
+                st = stmts[i]
+                if isinstance(st, ast.For) and not st.orelse and isinstance(st.iter, ast.Call) and not leaves_loop(st.body):
+                    callee = resolve(st.iter)
+                    if callee is not None and callee is not fn and not returns_in(callee) and plain(body_nodoc(callee)):
+                        b = self._bind(callee, st.iter.func.value, 'method', st.iter, bound_names(fn), True)
+                        if b is not None:
+                            pre, sub = b
+                            body = [sub.visit(copy.deepcopy(x)) for x in body_nodoc(callee)]
+                            new = pre + weave(body, st.target, st.body)
+                            for x in new:
+                                _relocate(x, st)
+                            stmts[i:i + 1] = new
+                            self.stats['helpers'] += 1
+                            self.inlined.append((callee.name, fn.name))
+                            changed = True
+                            continue
+                for name in ('body', 'orelse', 'finalbody'):
+                    sub_ = getattr(st, name, None)
+                    if isinstance(sub_, list) and sub_ and isinstance(sub_[0], ast.stmt) and not isinstance(st, (ast.FunctionDef, ast.AsyncFunctionDef, ast.ClassDef)):
+                        rec(sub_)
+                for h in getattr(st, 'handlers', []) or []:
+                    rec(h.body)
+                i += 1
+        rec(fn.body)
+        if changed:
+            ast.fix_missing_locations(fn)
+        return changed
 
     # ---------------------------------------------------------------- new optional parameters nobody passes
     def _passed_somewhere(self, fname, pname, index, self_fn=None, default=None):
